@@ -213,6 +213,9 @@ func NewEnv(opts EnvOptions) *Env {
 		WithBlockGasMeter(storetypes.NewInfiniteGasMeter()).
 		WithGasMeter(storetypes.NewInfiniteGasMeter()).
 		WithEventManager(sdk.NewEventManager())
+	// the first block begins like every other one (the conformance pass showed the difference: the service
+	// module's begin-blocker writes its per-block request index, so block 1 must not skip it)
+	e.BeginAt(e.Root)
 	return e
 }
 
